@@ -39,6 +39,11 @@ TEXT = {
         "note": "The converse (closure completeness) and the universal statement about the search are not yet proved. Trusted as C01.",
         "technique": "Lean 4 soundness proof of the support-closure oracle + evaluation on every implementation answer",
     },
+    "C06": {
+        "text": "Partial: (1) a decide-checked obligation that the set of source locations iterating a hash container (re-extracted from /repo on every run) is exactly the set the model accounts for, and the exact correspondence of the hash-free deterministic model MDet with the real solver (result, solution order, full history); (2) run-time exploration of what no theorem can see: every case of the solve / soft / snapshot families is executed in three separate processes (fresh ahash seeds, ASLR) and twice per process with fresh solver instances, and result, solution order, conflict message text, conflict graph and snapshot contents must be byte-identical.",
+        "note": "Hasher seeding and allocation order are runtime behaviour: explored, not proved. The message renderer is not modelled in Lean yet.",
+        "technique": "decide-checked site-list obligation + exact deterministic-model correspondence + multi-process byte comparison",
+    },
     "C07": {
         "text": "Partial proof + per-run oracle: Lean characterises the first choice in the SolverCache model (matching favored candidate first, otherwise a matching candidate of minimal rank; union members in listed order); the driver computes the preferred closure, decides C07's hypothesis (closure valid and each requirement met only by its own first choice) and requires the implementation's solution to equal the closure on every conflict-free case, over all hint patterns.",
         "note": "Universal statement about the search not yet proved. Trusted as C01.",
